@@ -271,6 +271,56 @@ def generate(tier, seed, ctx):
                 for (eps, depth) in ((2.0 ** -30, 0), (2.0 ** -10, 3), (1e-12, 8), (0.5, 12)):
                     add(rq_int(1, fn_poly(cs), a, b, eps, depth), "zeros/%d/deg%d" % (len(placed), len(roots)))
                     zcases += 1
+    # 7. narrow intervals far from the origin: |b-a|/max(|a|,|b|) log-uniform from ~100 ulp to 1e-6, offsets up to 1e12
+    for _ in range(120 * N):
+        deg = rng.choice([0, 1, 2, 3, 3, 4, 5, 5])
+        cs = [rng.choice([float(rng.randint(-4, 4)), rng.uniform(-2, 2)]) for _ in range(deg + 1)]
+        if cs[-1] == 0:
+            cs[-1] = 1.0
+        off = rng.choice([-1, 1]) * 10.0 ** rng.uniform(0, 12)
+        rel = 10.0 ** rng.uniform(math.log10(100 * 2.0 ** -52), -6)
+        a = off; b = off * (1 + rel)
+        if a == b:
+            continue
+        sc = float(poly_scale(cs, a, b))
+        depth = rng.choice([0, 0, 1, 2, 3, 5, 8])
+        eps = sc * 10.0 ** rng.uniform(-18, 0) if rng.random() < 0.7 else 10.0 ** rng.uniform(-18, 2)
+        add(rq_int(1, fn_poly(cs), a, b, eps, depth), "narrow/deg%d" % deg)
+    # 8. re-entrancy: the outer integrand itself calls Integrate with another depth / epsilon (value discarded);
+    #    the outer run must be the run of the plain call (class D) and the model's (integrate_nested_independent)
+    def add_nested(tr, fn, a, b, eps, depth, ifn, ia, ib, ieps, idepth, fam, famop=False):
+        plain = rq_int(tr, fn, a, b, eps, depth, op="c03.fam" if famop else "c03.int")
+        if plain not in ctx["meta"]:
+            R.append(plain); ctx["meta"][plain] = dict(fam=fam + "/plain")
+        rq = "%s %s %s %s %s %d" % (plain.replace("c03.fam", "c03.nestedf", 1).replace("c03.int", "c03.nested", 1),
+                                     ifn, hx(ia), hx(ib), hx(ieps), idepth)
+        if rq not in ctx["meta"]:
+            R.append(rq); ctx["meta"][rq] = dict(fam=fam, base=plain, rel="nested")
+    for _ in range(36 * N):
+        # outer: polynomial that does not converge at a tiny eps (count bound at stake) or converges at a moderate one
+        deg = rng.choice([4, 5, 6, 7, 8])
+        cs = [float(rng.randint(-4, 4)) for _ in range(deg + 1)]
+        if cs[-1] == 0:
+            cs[-1] = 1.0
+        a, b = limits("dyadic")
+        if rng.random() < 0.5:
+            a, b = b, a
+        d1 = rng.choice([0, 1, 2, 3, 3, 4, 5, 6])
+        d2 = rng.choice([x for x in (0, 1, 2, 4, 6, 8, 10, 12) if x != d1 and x + d1 <= 14])
+        eps = rng.choice([2.0 ** -40, 2.0 ** -30, 2.0 ** -12, 2.0 ** -4])
+        ics = [float(rng.randint(-3, 3)) for _ in range(rng.choice([3, 7, 8]))] + [1.0]
+        ieps = rng.choice([2.0 ** -45, 2.0 ** -20, 1.0])
+        add_nested(1 if d1 <= 6 else 0, fn_poly(cs), a, b, eps, d1, fn_poly(ics), -1.0, 2.0, ieps, d2, "nested/poly")
+    for _ in range(30 * N):
+        # outer: estimator-regular family at a generous depth (4|eps| clause at stake), inner call shallow
+        w = rng.choice([-1, 1]) * rng.uniform(0.2, 0.95) * L4
+        a = rng.uniform(-2, 2); b = a + 1.0
+        d0 = dict(kind="exp", w=w, s=0.0, k=0.0, a=a, b=b)
+        I0 = abs(float(fam_reference(d0)))
+        eps = I0 * 10.0 ** rng.uniform(-10, -4)
+        d1 = rng.choice([14, 16, 20]); d2 = rng.choice([0, 0, 1, 2])
+        plain_fn = "exp %s %s %s" % (hx(w), hx(0.0), hx(0.0))
+        add_nested(0, plain_fn, a, b, eps, d1, fn_poly([1.0, -2.0, 0.5, 1.0]), 0.0, 1.0, 1.0, d2, "nested/exp", famop=True)
     # negative depth / zero epsilon on the model-compared side too
     for _ in range(30 * N):
         cs = [float(rng.randint(-4, 4)) for _ in range(rng.randint(1, 8))]
@@ -333,6 +383,9 @@ def oracle(d, I, ctx):
             out.append(fail("prop", "equal limits do not give zero without evaluating the integrand", "val=%r n=%d" % (I["val"], I["n"])))
         return out
     bound = 2 ** (max(depth, 0) + 2) + 1
+    if I["n"] < 5:   # simpson_eval_count_lower: only a == b may return without looking at the integrand
+        out.append(fail("prop", "unequal limits: the integrand was evaluated fewer than five times (ends, midpoint, quarter points)",
+                        "n=%d val=%r |b-a|/max(|a|,|b|)=%.3g" % (I["n"], I["val"], abs(b - a) / max(abs(a), abs(b)))))
     if I["n"] > bound:
         out.append(fail("prop", "integrand evaluated more than 2^(depth+2)+1 times", "%d > %d" % (I["n"], bound)))
     if I["n"] and (I["mn"] < min(a, b) or I["mx"] > max(a, b)):
@@ -435,6 +488,12 @@ def finalize(ctx, exe):
             if not (B["val"] == -A["val"] or (A["val"] == 0 and B["val"] == 0)) or B["n"] != A["n"] or (A["xs"] is not None and A["xs"] != B["xs"]):
                 out.append(dict(fail("prop", "swapping the limits does not negate the result exactly",
                                      "a->b %r, b->a %r, evaluations %d vs %d" % (A["val"], B["val"], A["n"], B["n"])), req=rq))
+        elif meta["rel"] == "nested":
+            if not (B["val"] == A["val"] or (math.isnan(A["val"]) and math.isnan(B["val"]))) or B["n"] != A["n"] or B["warn"] != A["warn"] \
+                    or (A["xs"] is not None and B["xs"] is not None and A["xs"] != B["xs"]):
+                out.append(dict(fail("prop", "the outer integration depends on what the integrand does internally (nested Integrate call with another depth/epsilon)",
+                                     "plain: val %r, %d evaluations, warn %d; nested: val %r, %d evaluations, warn %d" % (
+                                         A["val"], A["n"], A["warn"], B["val"], B["n"], B["warn"])), req=rq))
         elif meta["rel"] == "negeps":
             if B["val"] != A["val"] or B["n"] != A["n"] or B["warn"] != A["warn"]:
                 out.append(dict(fail("prop", "the sign of epsilon changes the result",
